@@ -341,15 +341,16 @@ class IG:
                     out.append((n, self.resolve(n.ev.get("rhs"), fr)))
         return out
 
-    def reaching_defs(self, at_node, var):
-        """definitions of frame-tagged local `var` that reach `at_node` (backward search that stops at definitions)"""
+    def reaching_defs(self, at_node, var, incl=False):
+        """definitions of frame-tagged local `var` that reach `at_node` (backward search that stops at definitions);
+        incl: the value after `at_node` executed (conditions on its out-edges)"""
         fr = self.frames[var["fr"]]
         defs = dict((n.id, (n, rhs, how)) for n, rhs, how in self.local_defs(fr, var["id"]))
         out = []
         seen = set()
         if not hasattr(self, "_live"):
             self._live = self.reach([self.entry])
-        dq = deque(p for p, _ in at_node.pred)
+        dq = deque([at_node] if incl else [p for p, _ in at_node.pred])
         while dq:
             n = dq.popleft()
             if n.id in seen or n.id not in self._live:
@@ -363,7 +364,7 @@ class IG:
                     dq.append(p_)
         return out
 
-    def origins_at(self, desc, at_node, depth=0):
+    def origins_at(self, desc, at_node, depth=0, incl=False):
         """like origins(), but a local is resolved through the definitions that reach `at_node`
         (flow-sensitive), each definition's right-hand side being evaluated at that definition"""
         desc = self.resolve(desc, at_node.frame)
@@ -371,12 +372,12 @@ class IG:
             return [desc]
         k = desc.get("k")
         if k == "cast":
-            return self.origins_at(desc["x"], at_node, depth + 1)
+            return self.origins_at(desc["x"], at_node, depth + 1, incl)
         if k == "cond":
-            return self.origins_at(desc["t"], at_node, depth + 1) + self.origins_at(desc["f"], at_node, depth + 1)
+            return self.origins_at(desc["t"], at_node, depth + 1, incl) + self.origins_at(desc["f"], at_node, depth + 1, incl)
         if k == "l" and "fr" in desc:
             out = []
-            rd = self.reaching_defs(at_node, desc)
+            rd = self.reaching_defs(at_node, desc, incl)
             if not rd:
                 return [desc]
             for n, rhs, how in rd:
